@@ -255,16 +255,16 @@ CHECKS["C07"] = {
 }
 
 CHECKS["C16"] = {
-    "harnesses": [H("c16.VH_socks5", {"L": 16, "ROUNDS": 1, "CFG": i}, {"L": 20, "ROUNDS": 2, "CFG": i}, variant=f"cfg{i}", weight=3,
+    "harnesses": [H("c16.VH_socks5", {"L": 16, "ROUNDS": 1, "CFG": i}, {"L": 18, "ROUNDS": 2, "CFG": i}, variant=f"cfg{i}", weight=3,
                     covers=(["refused", "outbound action attempted"] if i not in (4, 5) else ["refused"]) + (["authenticated"] if i in (2, 3, 6) else []))
                   for i in range(9)] + [
-        H("c16.VH_socks5_pair", {"L": 12, "ROUNDS": 1, "PAIR": i}, {"L": 16, "ROUNDS": 2, "PAIR": i}, variant=f"pair{i}", weight=3,
+        H("c16.VH_socks5_pair", {"L": 12, "ROUNDS": 1, "PAIR": i}, {"L": 14, "ROUNDS": 2, "PAIR": i}, variant=f"pair{i}", weight=3,
           covers=["second handler provisioned", "refused", "outbound action attempted"]) for i in range(4)],
     "level_text": "bounded model checking of the real Socks5Handler.Provision + Handle with the go-socks5 library's ServeConn, method negotiation, user/password authentication, request parsing and rule check executed from SSA over an arbitrary client byte stream; the three outbound actions (and the resolver) are intercepted; asserted: an outbound action is started only for an enabled command and, when credentials are configured, only if the user/password bytes on the wire equal a configured pair (re-parsed independently per RFC 1928/1929)",
-    "level_note": "nine configurations (default commands; CONNECT only; BIND with one user; ASSOCIATE+BIND with two users incl. an empty password; a credential map holding only an empty user name; user names given as placeholders that resolve to nothing, alone and beside a real account; BIND only; ASSOCIATE only) and four pairs of handler instances provisioned one after the other (the first one is then served); client stream <= 16 (quick) / 20 (thorough) bytes delivered in 1-2 reads - enough for greeting, a 1-2 byte user and password and an IPv4 or short FQDN request; the native twin observes the outbound attempt through the reply code",
+    "level_note": "nine configurations (default commands; CONNECT only; BIND with one user; ASSOCIATE+BIND with two users incl. an empty password; a credential map holding only an empty user name; user names given as placeholders that resolve to nothing, alone and beside a real account; BIND only; ASSOCIATE only) and four pairs of handler instances provisioned one after the other (the first one is then served); client stream <= 16 (quick) / 18 (thorough) bytes delivered in 1-2 reads - enough for greeting, a 1-2 byte user and password and an IPv4 or short FQDN request; the native twin observes the outbound attempt through the reply code",
     "assumptions": ["handleConnect / handleBind / handleAssociate and DNSResolver.Resolve of go-socks5 are intercepted sinks", "zap/log are no-op stubs"],
     "outside": ["streams longer than the bound (long user names, IPv6 requests in the quick tier)", "placeholders that resolve to non-empty values", "what the outbound actions do once started"],
-    "bounds": {"quick": "stream <= 16 bytes, one read", "thorough": "stream <= 20 bytes, two reads"},
+    "bounds": {"quick": "stream <= 16 bytes, one read", "thorough": "stream <= 18 bytes (pairs: 14), two reads"},
 }
 
 CHECKS["C17"] = {
